@@ -21,7 +21,8 @@ REQUIRED = ["safety_any_schedule", "unsolicited_responses_change_no_dag", "chunk
             "list_handler_drains_in_order", "fact_dispatch_table_routes", "fact_dispatcher_shape",
             "fact_send_gossip_addressing", "fact_send_gossip_query_interpreted", "fact_connection_lookup_shape", "gossip_addressed_to_queue_owner",
             "gossip_reaches_connected_owner", "did_addressing_starves_a_peer", "empty_query_selects_nothing", "addressing_refines_gossip_tick_guard", "gossip_tick_uses_the_lookup",
-            "fact_conversation_lock_discipline", "fact_conversation_manager_flows", "conversation_manager_releases_lock_on_every_exit", "refusal_without_unlock_keeps_manager_locked"]
+            "fact_conversation_lock_discipline", "fact_conversation_manager_flows", "conversation_manager_releases_lock_on_every_exit", "refusal_without_unlock_keeps_manager_locked",
+            "refusal_needs_live_blocking_conversation", "done_unblocks_peer", "after_done_request_is_accepted", "expiry_unblocks_peer"]
 
 
 IBLT_PKG = "network/dag/tree"
